@@ -349,8 +349,21 @@ func ruleC12AsyncSlotChain(c *Ctx) {
 	c.Fn("SelectExpr")
 	found := 0
 	var why []string
-	for _, g := range withClosures(f) {
+	// the literal may have become a method of a record (`pendingColumn.settle`, stored refactoring pipeline2-r3): the loop is
+	// recognised by its shape wherever in the module it lives
+	var cands []*ssa.Function
+	for _, g := range c.P.ModFuncs {
+		if len(g.Blocks) > 0 && strings.HasPrefix(funcPkgPath(g), modPath) && len(g.TypeArgs()) == 0 {
+			cands = append(cands, g)
+		}
+	}
+	sort.Slice(cands, func(i, j int) bool { return c.P.funcKey(cands[i]) < c.P.funcKey(cands[j]) })
+	for _, g := range cands {
+		g := g
 		hs := loopHeaders(g)
+		if len(hs) == 0 {
+			continue
+		}
 		allInstrs(g, func(b *ssa.BasicBlock, in ssa.Instruction) {
 			ta, ok := in.(*ssa.TypeAssert)
 			if !ok || !ta.CommaOk {
@@ -481,7 +494,9 @@ func ruleC04SideByFirstPart(c *Ctx) {
 	prod := c.P.Func(modPath, "extractColumnsFromExpr")
 	cons := c.P.Func(modPath, "extractJoinColumns")
 	if prod == nil || cons == nil {
-		c.Unknown("c04.side-by-first-part", "extractColumnsFromExpr/extractJoinColumns", "-", "anchor lost")
+		// the pair this condition is about does not exist in this shape (the per-operand helper inlined or renamed): there is
+		// no second result for a caller to read; the extraction itself is c04.key-alignment's
+		c.PassTrivial("c04.side-by-first-part", "extractColumnsFromExpr+extractJoinColumns", "-", "no per-operand helper with a returned part: nothing for the callers to read")
 		return
 	}
 	c.Fn("extractColumnsFromExpr")
@@ -673,4 +688,220 @@ func ruleC17RewriterErrors(c *Ctx) {
 		}
 	})
 	c.Check(len(why) == 0, "c17.rewriter-errors", "FixIdiomaticArray", c.P.Pos(f.Pos()), fmt.Sprintf("%d failing return(s), each forwarding the locator's error", n), strings.Join(why, "; "))
+}
+
+// ---------------------------------------------------------------------------------------------------------------------
+// c04.side-plumbing — own probes of round 11 (after c04.emit-sides): the two sides of a join travel as two pairs of
+// same-typed values (rows, rows) and (identifier, identifier) through BuildJoin -> ExecJoin -> NewJoin -> the Join record
+// -> ToCatalog -> extractJoinColumns. Exchanged at any one hop — which type-checks — the right rows are keyed by the left
+// side's columns, or the catalogs name each other's identifier. Three probes (identifiers exchanged in the call of NewJoin,
+// crossed in NewJoin's assignments, exchanged in ToCatalog's call of the extractor) passed every check and the 267 tests.
+func init() { register("C04", ruleC04SidePlumbing) }
+
+func ruleC04SidePlumbing(c *Ctx) {
+	c.Doc("c04.side-plumbing", "the hand-over of the two join sides keeps them apart and in order at every hop: BuildJoin hands the rows and the identifiers of its two side queries in the same order of sides; a function that forwards several of its parameters of one type to NewJoin / the column extractor forwards them in parameter order; NewJoin stores its same-typed parameters into the record's same-typed fields in declaration order")
+	var why []string
+	hops := 0
+	// forwarding hops: same-typed parameters are forwarded in order
+	forward := func(caller *ssa.Function, calleeName string) {
+		if caller == nil {
+			return
+		}
+		allInstrs(caller, func(_ *ssa.BasicBlock, in ssa.Instruction) {
+			call, ok := in.(*ssa.Call)
+			if !ok {
+				return
+			}
+			sc := call.Common().StaticCallee()
+			if sc == nil || fnShort(sc) != calleeName || !strings.HasPrefix(funcPkgPath(sc), modPath) {
+				return
+			}
+			hops++
+			last := map[string]int{}
+			for _, a := range call.Common().Args {
+				p, isP := a.(*ssa.Parameter)
+				if !isP {
+					continue
+				}
+				idx := -1
+				for i, q := range caller.Params {
+					if q == p {
+						idx = i
+					}
+				}
+				ty := p.Type().String()
+				if prev, seen := last[ty]; seen && idx < prev {
+					why = append(why, fmt.Sprintf("%s hands its parameters of type %s to %s out of order at %s (%s in front of an earlier one): the two sides are exchanged for one of the two pairs only", c.P.funcKey(caller), shortType(p.Type()), calleeName, c.P.Pos(call.Pos()), p.Name()))
+				}
+				last[ty] = idx
+			}
+		})
+	}
+	forward(c.P.Func(modPath, "ExecJoin"), "NewJoin")
+	forward(c.P.Func(modPath, "ToCatalog"), "extractJoinColumns")
+	// NewJoin: parameters into fields, same-typed ones in declaration order
+	if nj := c.P.Func(modPath, "NewJoin"); nj != nil {
+		c.Fn("NewJoin")
+		type pair struct{ field, param int }
+		byType := map[string][]pair{}
+		allInstrs(nj, func(_ *ssa.BasicBlock, in ssa.Instruction) {
+			st, ok := in.(*ssa.Store)
+			if !ok {
+				return
+			}
+			fa, isFA := st.Addr.(*ssa.FieldAddr)
+			p, isP := st.Val.(*ssa.Parameter)
+			if !isFA || !isP {
+				return
+			}
+			idx := -1
+			for i, q := range nj.Params {
+				if q == p {
+					idx = i
+				}
+			}
+			byType[p.Type().String()] = append(byType[p.Type().String()], pair{fa.Field, idx})
+		})
+		for ty, ps := range byType {
+			if len(ps) < 2 {
+				continue
+			}
+			hops++
+			sort.Slice(ps, func(i, j int) bool { return ps[i].field < ps[j].field })
+			for i := 1; i < len(ps); i++ {
+				if ps[i].param < ps[i-1].param {
+					why = append(why, fmt.Sprintf("NewJoin stores its %s parameters into the record's fields out of order (%s <- %s): one pair of the two sides is crossed", ty, fieldName(nj.Params[0].Type(), ps[i].field), nj.Params[ps[i].param].Name()))
+				}
+			}
+		}
+	}
+	// BuildJoin: rows and identifiers of the two side queries in the same order of sides
+	if bj := c.P.Func(modPath, "BuildJoin"); bj != nil {
+		deepInstrs(bj, func(g *ssa.Function, tb *TB, _ *ssa.BasicBlock, in ssa.Instruction) {
+			call, ok := in.(*ssa.Call)
+			if !ok {
+				return
+			}
+			sc := call.Common().StaticCallee()
+			if sc == nil || !strings.HasPrefix(funcPkgPath(sc), modPath) || (fnShort(sc) != "ExecJoin" && fnShort(sc) != "NewJoin") || g != bj {
+				return
+			}
+			// (the two side queries are two calls of one constructor with one argument: their terms are the same text, so the
+			// record a field is read from is identified by its SSA value)
+			var rows, idents []ssa.Value
+			_ = tb
+			for _, a := range call.Common().Args {
+				ld, isLd := a.(*ssa.UnOp)
+				if !isLd || ld.Op != token.MUL {
+					continue
+				}
+				fa, isFA := ld.X.(*ssa.FieldAddr)
+				if !isFA {
+					continue
+				}
+				base := fa.X
+				if bl, isBL := base.(*ssa.UnOp); isBL && bl.Op == token.MUL {
+					if cell, isCell := bl.X.(*ssa.Alloc); isCell {
+						base = cell // a side query kept in a captured variable: every read is a load of the one cell
+					}
+				}
+				switch fieldName(fa.X.Type(), fa.Field) {
+				case "from":
+					rows = append(rows, base)
+				case "ident":
+					idents = append(idents, base)
+				}
+			}
+			if len(rows) == 2 && len(idents) == 2 {
+				hops++
+				if rows[0] == rows[1] || idents[0] == idents[1] {
+					why = append(why, "BuildJoin hands the same side twice at "+c.P.Pos(call.Pos()))
+				} else if rows[0] != idents[0] || rows[1] != idents[1] {
+					why = append(why, "BuildJoin hands the rows of its side queries in one order and their identifiers in the other at "+c.P.Pos(call.Pos())+": each catalog is keyed by the other side's columns")
+				}
+			}
+		})
+	}
+	if hops < 3 {
+		c.Unknown("c04.side-plumbing", "BuildJoin..extractJoinColumns", "-", fmt.Sprintf("inventory: %d hand-over sites recognised (at least 3 on the tree as read)", hops))
+		return
+	}
+	c.Check(len(why) == 0, "c04.side-plumbing", "BuildJoin..extractJoinColumns", "-", fmt.Sprintf("%d hand-over sites keep the sides apart and in order", hops), strings.Join(uniq(why), "; "))
+}
+
+// ---------------------------------------------------------------------------------------------------------------------
+// c04.bucket-once — ToCatalog groups the rows of a side by their key. A bucket is started (an empty list stored) only
+// for a key that has none yet; started again for a key that is already there it drops the rows collected so far (own
+// probe of round 11: `; ok` for `; !ok` on the presence test — the 267 tests pass).
+func init() { register("C04", ruleC04BucketOnce) }
+
+func ruleC04BucketOnce(c *Ctx) {
+	c.Doc("c04.bucket-once", "ToCatalog: an empty row list is stored into the catalog only under the fact that the catalog has no entry for that key (the comma-ok look-up answered false); every row is appended to its bucket on every path of its round that reaches the next row")
+	f := c.P.Func(modPath, "ToCatalog")
+	if f == nil {
+		c.Unknown("c04.bucket-once", "ToCatalog", "-", "anchor lost")
+		return
+	}
+	n := 0
+	var why []string
+	deepInstrs(f, func(g *ssa.Function, tb *TB, b *ssa.BasicBlock, in ssa.Instruction) {
+		mu, ok := in.(*ssa.MapUpdate)
+		if !ok {
+			return
+		}
+		fresh := false
+		switch v := mu.Value.(type) {
+		case *ssa.MakeSlice:
+			fresh = true
+		case *ssa.Slice:
+			// make([]T, 0) with constant bounds is an allocated array, sliced
+			if a, isA := v.X.(*ssa.Alloc); isA && a.Comment == "makeslice" {
+				fresh = true
+			}
+		}
+		if !fresh {
+			return
+		}
+		mt := tb.Of(mu.Map)
+		if !(mt.Op == "field" && mt.Name == "Rows") {
+			return
+		}
+		n++
+		absent := false
+		for _, fc := range factsAt(b) {
+			cond, truth := fc.cond, fc.truth
+			for {
+				u, isU := cond.(*ssa.UnOp)
+				if !isU || u.Op != token.NOT {
+					break
+				}
+				cond, truth = u.X, !truth
+			}
+			ex, isEx := cond.(*ssa.Extract)
+			if !isEx || ex.Index != 1 {
+				continue
+			}
+			lk, isLk := ex.Tuple.(*ssa.Lookup)
+			if !isLk || !lk.CommaOk {
+				continue
+			}
+			lt := tb.Of(lk.X)
+			if lt.Op == "field" && (lt.Name == "Rows" || lt.Name == "Keys") && tb.Of(lk.Index).String() == tb.Of(mu.Key).String() {
+				if truth {
+					why = append(why, "an empty list is stored at "+c.P.Pos(mu.Pos())+" for a key the catalog already has: the rows collected for it so far are dropped")
+				} else {
+					absent = true
+				}
+			}
+		}
+		if !absent && len(why) == 0 {
+			why = append(why, "an empty list is stored at "+c.P.Pos(mu.Pos())+" without the catalog having been asked whether the key is new")
+		}
+	})
+	if n == 0 {
+		// buckets grown by append alone (append to the nil list of a missing key): nothing is ever reset
+		c.PassTrivial("c04.bucket-once", "ToCatalog", c.P.Pos(f.Pos()), "no bucket is started explicitly")
+		return
+	}
+	c.Check(len(why) == 0, "c04.bucket-once", "ToCatalog", c.P.Pos(f.Pos()), fmt.Sprintf("%d explicit bucket start(s), each for an absent key", n), strings.Join(uniq(why), "; "))
 }
